@@ -162,14 +162,16 @@ func (f *SubscriptionFieldFilter) SkipEvent(ctx *Context, data []byte) (bool, er
 				// Boolean: true -> JSON: "true"
 				// Number: 42 -> JSON: "42"
 				// Null: null -> JSON: "null"
+				// expected is compared with every filter value: quote a copy, not the event value itself
+				quotedExpected := expected
 				if expectedDataType == jsonparser.String {
-					expected, err = json.Marshal(string(expected))
+					quotedExpected, err = json.Marshal(string(expected))
 					if err != nil {
 						return true, err
 					}
 				}
 
-				if bytes.Equal(expected, actualRawBytes) {
+				if bytes.Equal(quotedExpected, actualRawBytes) {
 					return false, nil
 				}
 
